@@ -257,6 +257,9 @@ class MoleculeResolver:
 
             for node in fragment.nodes:
                 new_node = correspondence[node]
+                # the fragment id has to be the key of the coarse node; the running
+                # index of merge_graphs differs from it as soon as nodes are skipped
+                self.molecule.nodes[new_node]['fragid'] = [meta_node]
                 attrs = copy.deepcopy(self.molecule.nodes[new_node])
                 graph_frag.add_node(correspondence[node], **attrs)
                 nx.set_node_attributes(graph_frag, [meta_node], 'fragid')
